@@ -369,6 +369,45 @@ def proc_frees(M, name, mutable):
     return arrays + scal
 
 
+def pure_closure(M, roots):
+    """the side-effect-free macros reachable from `roots`, callees first"""
+    order = []
+
+    def calls(n, acc):
+        if n[0] == "call":
+            acc.append(n[1])
+            for a in n[2]:
+                calls(a, acc)
+        elif n[0] in ("bin", "asg"):
+            calls(n[2], acc)
+            calls(n[3], acc)
+        elif n[0] == "cond":
+            for c in n[1:]:
+                calls(c, acc)
+        elif n[0] == "not":
+            calls(n[1], acc)
+        elif n[0] == "idx":
+            calls(n[2], acc)
+
+    def visit(name, stack):
+        if name in order:
+            return
+        if name in stack:
+            raise Untranslatable(f"recursive macro {name}")
+        if M.classify(name) != "pure":
+            return
+        acc = []
+        for st in M.body(name):
+            calls(st, acc)
+        for c in acc:
+            visit(c, stack + [name])
+        order.append(name)
+
+    for r in roots:
+        visit(r, [])
+    return order
+
+
 def pure_def(M, name):
     params, _ = M.defs[name]
     b = M.body(name)
@@ -506,7 +545,7 @@ def generate(repo):
 
     hx = lambda v: f"0x{v:08x}"
     out = ["-- GENERATED by tools/gen_sha.py from src/Crypto/Sha256.cpp (g++ -E -dD).  Do not edit.\n",
-           "namespace Nstd.Generated.Sha256\n\n",
+                      "namespace Nstd.Generated.Sha256\n\n",
            "/-- `Sha256::Private::K[64]` -/\n",
            "def K : List UInt32 := [\n  " + ",\n  ".join(", ".join(hx(v) for v in K[i:i + 8]) for i in range(0, 64, 8)) + "]\n\n",
            "/-- the state written by `Sha256::reset()` -/\n",
@@ -515,9 +554,13 @@ def generate(repo):
            f"/-- `Sha256::blockSize`, `Sha256::digestSize` (Sha256.hpp) -/\ndef blockSize : Nat := {hdr['blockSize']}\ndef digestSize : Nat := {hdr['digestSize']}\n\n",
            f"/-- `oKeyPad[i] = hashKey[i] ^ …`, `iKeyPad[i] = hashKey[i] ^ …` in `Sha256::hmac` -/\n"
            f"def hmacOpad : UInt8 := 0x{hdr['hmacOpad']:02x}\ndef hmacIpad : UInt8 := 0x{hdr['hmacIpad']:02x}\n\n"]
-    for name in PURE:
+    for name in pure_closure(M, PURE):
         out.append(f"/-- `#define {name}({','.join(defs[name][0])}) {defs[name][1]}` -/\n")
         out.append(pure_def(M, name) + "\n")
+    out.append("/-- unfolds every translated side-effect-free macro (used by the bit-level proofs, which must not\n"
+               "depend on which helper macros the source uses) -/\n"
+               "macro \"sha_macro_unfold\" : tactic =>\n  `(tactic| simp only [" +
+               ", ".join(f"Nstd.Generated.Sha256.{n}" for n in pure_closure(M, PURE)) + "])\n\n")
     out.append("/-- checked array write: an out-of-range index destroys the array, so that no theorem about the\n"
                "results can hold by accident of a silently dropped write -/\n"
                "def wr {α : Type} (a : List α) (i : Nat) (v : α) : List α := if i < a.length then a.set i v else []\n\n"
